@@ -6,17 +6,22 @@ Open Scope Z_scope.
 Record case := MkCase {
   c_env : env;
   c_acts : list action;
-  c_obs : observation
+  c_obs : observation;
+  c_disp : dispatch;
+  c_globals : list attach;       (* Logger instances attached router-wide, in option order *)
+  c_tlevel : nat;                (* Logger instances attached to the target route *)
+  c_alevel : nat                 (* Logger instances attached to the alias route *)
 }.
 
 Definition mk (k : kind) (glob : option resolution) (rt : route_res) (method host path remote : bytes)
            (acts : list action) (recs : list logrec) (pan : option N) (status : Z) (loc : bytes)
-           (same after : bool) : case :=
+           (same after : bool) (d : dispatch) (globals : list attach) (tl al : nat) : case :=
   MkCase {| e_kind := k; e_glob := glob; e_route := rt; e_method := method; e_host := host;
             e_path := path; e_remote := remote |}
          acts
          {| o_records := recs; o_panic := pan; o_status := status; o_location := loc;
-            o_same_response := same; o_after_handler := after |}.
+            o_same_response := same; o_after_handler := after |}
+         d globals tl al.
 
 Definition R (l : slog_level) (msg : bytes) (attrs : list (bytes * aval)) : logrec :=
   {| r_level := l; r_msg := msg; r_attrs := attrs |}.
@@ -26,7 +31,8 @@ Definition thrown (acts : list action) : option N :=
 
 (* the model's prediction: records logged, panic raised, and the log event is the last event *)
 Definition model_agrees (c : case) : bool :=
-  match logger (c_env c) (run_actions (c_acts c)) w_reset [] with
+  match loggers (loggers_run (e_kind (c_env c)) (c_disp c) (c_globals c) (c_tlevel c) (c_alevel c))
+                (c_env c) (run_actions (c_acts c)) w_reset [] with
   | (r, w, tr) =>
       list_eqb logrec_eqb (logs_of tr) (o_records (c_obs c))
       && opt_eqb N.eqb (match r with Panicked id => Some id | Returned => None end) (o_panic (c_obs c))
@@ -35,7 +41,8 @@ Definition model_agrees (c : case) : bool :=
 Definition case_spec_ok (c : case) : bool :=
   let e := c_env c in
   spec_ok (e_kind e) (e_glob e) (e_route e) (e_method e) (e_host e) (e_path e) (e_remote e)
-          (thrown (c_acts c)) (c_obs c).
+          (thrown (c_acts c))
+          (expected_records (e_kind e) (c_disp c) (c_globals c) (c_tlevel c) (c_alevel c)) (c_obs c).
 
 Definition mismatches (cs : list case) : list nat := true_idx (map (fun c => negb (model_agrees c)) cs).
 Definition spec_violations (cs : list case) : list nat := true_idx (map (fun c => negb (case_spec_ok c)) cs).
